@@ -42,6 +42,9 @@ def mutants(prog):
         ("update hook not registered", B, "SpatialTransform.register_update_hook", "self._update_hook_handle = self.register_forward_pre_hook(self._update_hook)", "self._update_hook_handle = None", "T6x."),
         ("condition_: keyword conditions merged", "deepali.spatial.base", "SpatialTransform.condition_", "self._kwargs = kwargs", "self._kwargs.update(kwargs)", "T6x."),
         ("ddf update: buffered field kept without resizing", "deepali.spatial.nonrigid", "DisplacementFieldTransform.update", "u = self.evaluate()", "u = self.evaluate() if self._resize or getattr(self, 'u', None) is None else self.u", "T6x.call-fresh"),
+        ("grid_: a grid that differs only in align_corners is ignored", "deepali.spatial.base", "SpatialTransform.grid_", "if self._grid == grid and self._grid.align_corners() == grid.align_corners():", "if self._grid == grid:", "T6x.regrid"),
+        ("link_ keeps the buffered field", "deepali.spatial.parametric", "ParametricTransform.link_", "            self.reset_parameters()\n    self.clear_buffers()\n    return self", "            self.reset_parameters()\n    return self", "T6x."),
+        ("functional data(): module slot kept", "deepali.spatial.parametric", "ParametricTransform.data", "if isinstance(params, torch.nn.Module):", "if False:", "T6x."),
     ]
     for name, mod, fn, old, new, expect in specs:
         ov = source_sub(prog, mod, fn, old, new)
